@@ -23,11 +23,18 @@
 EXTENDS Naturals, Sequences, FiniteSets, TLC
 
 CONSTANTS MaxCalls, MaxCont, MaxTrail,
+          WithGenErr,  \* server scripts may contain replies that are reported as general errors
           DoneInit,    \* "count" : done starts as reply_count = 0 (repaired) | "false" : pinned code
           HoldItems    \* consumer keeps yielded items while polling on
 
-Kinds == {"plain", "oneway", "more"}
-\* a reply frame: [call |-> index of the call it answers (0 = unrelated), err |-> BOOLEAN, cont |-> BOOLEAN]
+\* "om": a call flagged both oneway and more - it is oneway, nobody answers it
+Kinds == {"plain", "oneway", "more", "om"}
+Unanswered(kd) == kd \in {"oneway", "om"}
+\* a reply frame: [call |-> index of the call it answers (0 = unrelated), err |-> BOOLEAN, cont |-> BOOLEAN,
+\*                 gen |-> BOOLEAN]   gen: the reply is reported as a general error (it does not decode as the
+\* expected types, or it is one of the standard service errors): the stream yields it and stops
+\* (reply_stream.rs: "mark the stream as done as it's likely not recoverable"); the replies it did not take
+\* stay with the connection.
 VARIABLES calls,     \* Seq(Kinds)
           inq,       \* frames the server sent, not yet taken by a receive
           batch,     \* how many of the frames at the head of inq arrived in the same transport read
@@ -45,7 +52,8 @@ VARIABLES calls,     \* Seq(Kinds)
 vars == <<calls, inq, batch, wire, phase, replyCount, idx, done, yielded, afterGot, reads, bufItems, live, clobbered,
           dropped, script>>
 
-Frame(c, e, k) == [call |-> c, err |-> e, cont |-> k]
+Frame(c, e, k) == [call |-> c, err |-> e, cont |-> k, gen |-> FALSE]
+GenErr(c) == [call |-> c, err |-> TRUE, cont |-> FALSE, gen |-> TRUE]
 
 \* All conforming reply scripts for a call sequence: for a plain call one success or error, for a
 \* `more' call 0..MaxCont continuing replies then a final success or an error, nothing for oneway.
@@ -53,10 +61,11 @@ RECURSIVE Scripts(_, _)
 Scripts(cs, i) ==
     IF i > Len(cs) THEN {<<>>}
     ELSE LET rest == Scripts(cs, i + 1)
-             mine == CASE cs[i] = "oneway" -> {<<>>}
-                       [] cs[i] = "plain" -> {<<Frame(i, FALSE, FALSE)>>, <<Frame(i, TRUE, FALSE)>>}
+             finals(c) == {Frame(c, FALSE, FALSE), Frame(c, TRUE, FALSE)} \cup (IF WithGenErr THEN {GenErr(c)} ELSE {})
+             mine == CASE Unanswered(cs[i]) -> {<<>>}
+                       [] cs[i] = "plain" -> {<<f>> : f \in finals(i)}
                        [] cs[i] = "more" ->
-                            UNION {{[j \in 1..k |-> Frame(i, FALSE, TRUE)] \o <<Frame(i, e, FALSE)>> : e \in BOOLEAN}
+                            UNION {{[j \in 1..k |-> Frame(i, FALSE, TRUE)] \o <<f>> : f \in finals(i)}
                                    : k \in 0..MaxCont}
          IN {m \o r : m \in mine, r \in rest}
 
@@ -66,7 +75,7 @@ Init == /\ calls \in UNION {[1..n -> Kinds] : n \in 1..MaxCalls}
         /\ \E s \in Scripts(calls, 1) : \E t \in 0..MaxTrail : inq = s \o Trailing(t)
         /\ batch = 0
         /\ wire = <<>> /\ phase = "build"
-        /\ replyCount = Cardinality({i \in 1..Len(calls) : calls[i] # "oneway"})
+        /\ replyCount = Cardinality({i \in 1..Len(calls) : ~Unanswered(calls[i])})
         /\ idx = 0
         /\ done = (IF DoneInit = "count" THEN replyCount = 0 ELSE FALSE)
         /\ yielded = <<>> /\ afterGot = <<>> /\ reads = 0
@@ -99,10 +108,10 @@ PollStream ==
             \* without HoldItems the previous item was dropped before this poll
             /\ \E n \in 1..Len(inq) : Receive(n, IF HoldItems THEN live ELSE {})
             /\ LET f == Head(inq)
-                   idx1 == IF f.err \/ ~f.cont THEN idx + 1 ELSE idx
+                   idx1 == IF f.gen THEN idx ELSE IF f.err \/ ~f.cont THEN idx + 1 ELSE idx
                IN /\ yielded' = Append(yielded, f)
                   /\ idx' = idx1
-                  /\ done' = (idx1 >= replyCount)
+                  /\ done' = (f.gen \/ idx1 >= replyCount)
                   /\ live' = IF HoldItems THEN live \cup {Len(yielded) + 1} ELSE {Len(yielded) + 1}
             /\ reads' = reads + 1
             /\ UNCHANGED <<calls, wire, phase, replyCount, afterGot, dropped, script>>
@@ -131,9 +140,10 @@ Owed == LET all == yielded \o afterGot \o inq IN SelectSeq(all, LAMBDA f : f.cal
 NotOwed == LET all == yielded \o afterGot \o inq IN SelectSeq(all, LAMBDA f : f.call = 0)
 OneWriteInOrder == phase # "build" => wire = << [i \in 1..Len(calls) |-> i] >>
 YieldsPrefixOfOwed == \A i \in 1..Len(yielded) : i <= Len(Owed) /\ yielded[i] = Owed[i]
-EndsExactly == (phase \in {"ended", "after"} /\ ~dropped) => yielded = Owed   \* all owed, nothing from a later exchange
+GaveUp == yielded # <<>> /\ yielded[Len(yielded)].gen          \* the stream stopped at a general error
+EndsExactly == (phase \in {"ended", "after"} /\ ~dropped /\ ~GaveUp) => yielded = Owed   \* all owed, nothing from a later exchange
 NoReadWhenNothingOwed == replyCount = 0 => reads = 0
-LaterExchangeIntact == ~dropped => \A i \in 1..Len(afterGot) : afterGot[i].call = 0
+LaterExchangeIntact == (~dropped /\ ~GaveUp) => \A i \in 1..Len(afterGot) : afterGot[i].call = 0
 \* nothing is lost, duplicated or reordered between the stream and the connection, abandoned or not
 Conserved == yielded \o afterGot \o inq = script
 ChainInv == OneWriteInOrder /\ YieldsPrefixOfOwed /\ EndsExactly /\ NoReadWhenNothingOwed /\ LaterExchangeIntact /\ Conserved
